@@ -8,7 +8,8 @@ LEVEL = "exploration"
 RULE = (
     "A case = (generated function containing declared-only variables (bare annotations, with and without tags) and "
     "conditionally used undefined globals, input, configuration).  Configurations: instrumentation in {everything via "
-    "tooled(), everything via '$x', specific probes on a random subset of variables, only a meta-variable probe, none} x "
+    "tooled(), everything via '$x', specific probes on a random subset of variables, a focus-free (total) probe over the "
+    "declared variables, immediate probes with the declared variables as context, only a meta-variable probe, none} x "
     "a random subset of the declared variables supplied by Overlay.tweaking / Overlay.rewriting / an overridable probe.  "
     "Oracle per call: every declared variable reached on the path and supplied => outcome (result, exception, "
     "side-effect log, state) == the hooked twin run with a hook that stores the supplied value at the declaration; a "
@@ -92,7 +93,7 @@ def family(result):
 def gen_config(rnd, m):
     declared = list(m["declared"])
     names = [n for n in streams.body_names(m) if n not in ("o",)]
-    instr = rnd.choice(["tooled", "generic", "specific", "specific", "meta", "none"])
+    instr = rnd.choice(["tooled", "generic", "specific", "specific", "meta", "none", "total", "context"])
     nsup = rnd.randint(0, len(declared)) if instr != "none" else 0
     supplied = {n: rnd.randint(2, 9) for n in rnd.sample(declared, nsup)} if declared else {}
     # probing() on a tooled() function swaps in a variant for the probe's own captures, so
@@ -101,6 +102,10 @@ def gen_config(rnd, m):
     specific = rnd.sample(names, min(len(names), rnd.randint(1, 3))) if instr == "specific" and names else []
     if instr == "specific" and m["undef_globals"] and rnd.random() < 0.4:
         specific.append(rnd.choice(m["undef_globals"]))
+    if instr in ("total", "context"):
+        # observers that capture the declared variables themselves: a focus-free (total) probe,
+        # or immediate probes with a declared variable as context of a later binding
+        specific = list(declared) + (rnd.sample(names, min(len(names), 2)) if names else [])
     return {"instr": instr, "supplied": supplied, "how": how, "specific": specific}
 
 
@@ -123,6 +128,16 @@ def run_config(mod, m, cfg, argi, events):
     elif cfg["instr"] == "specific":
         for v in cfg["specific"]:
             p = probing(f"f > {v}", env=ns)
+            p.subscribe(lambda d: events.extend(prorun.norm(x) for x in d.values()))
+            cms.append(p)
+    elif cfg["instr"] == "total" and cfg["specific"]:
+        p = probing("f(" + ", ".join(cfg["specific"]) + ")", env=ns, raw=True)
+        p.subscribe(lambda d: events.extend(prorun.norm(c.values) for c in d.values()))
+        cms.append(p)
+    elif cfg["instr"] == "context" and cfg["specific"]:
+        dv = [v for v in cfg["specific"] if v in m["declared"]]
+        for w in [v for v in cfg["specific"] if v not in m["declared"]] or ["#exit"]:
+            p = probing("f(" + ", ".join(dv) + ") > " + w if dv else f"f > {w}", env=ns)
             p.subscribe(lambda d: events.extend(prorun.norm(x) for x in d.values()))
             cms.append(p)
     elif cfg["instr"] == "meta":
@@ -162,7 +177,7 @@ def instrumented_names(cfg, m):
     if cfg["instr"] in ("tooled", "generic"):
         return None  # everything
     s = set(cfg["supplied"])
-    if cfg["instr"] == "specific":
+    if cfg["instr"] in ("specific", "total", "context"):
         s |= set(cfg["specific"])
     return s
 
@@ -177,6 +192,8 @@ def check_program(m, mod, rnd, res, case_base, nconf, watch, mode="main", findin
             cfg = gen_config(rnd, m)
             case = dict(case_base, argi=argi, config=cfg)
             trig = bool(m["undef_globals"]) and (cfg["instr"] in ("tooled", "generic") or any(u in cfg["specific"] for u in m["undef_globals"]))
+            if cfg["instr"] in ("total", "context") and not cfg["specific"]:
+                continue
             if mode == "main-known" and trig:
                 res.count("skipped_known_trigger")
                 continue
